@@ -175,10 +175,10 @@ func init() {
 			}, "arraylist", "sll")...)
 	}}
 	properties["C06"] = propDef{run: func(c *Ctx) *PropertyRun {
-		return pr("other", "Decided: (R8) the loaders of BinaryHeap and PriorityQueue insert through the heap's own insertion path (Push re-heapifies) — the defect named in the property; (R22) Peek reads slot 0; Pop returns slot 0 read before Swap(0,n-1); Remove(n-1); bubbleDown and leaves an empty heap alone; Push(v) = Add; bubbleUp and Push(vs...) = Add*; bubbleDownIndex(i) for i from n/2 down to 0; the sift routines swap only on a strict comparator verdict and follow the element they move; Values() is filled from the heap's own iterator; the queue's heap is built with the queue's comparator; (R20) PriorityQueue delegates every operation to the heap; (R13b) neither package compares elements with Go operators — their default comparator is cmp.Compare, not a hand-written `<`/`>` that calls NaN equal to everything; (R30) the array list that stores the heap never pads or truncates its contents (length algebra of C03). Not decided: the heap order itself (sift index arithmetic, comparator signs — a sign flip fails the existing 10 000-element test), multiset preservation, level-sorted iterator values. Inherited (substrate): the array list that stores the heap — length algebra and index guards."+notBehaviour,
+		return pr("other", "Decided: (R8) the loaders of BinaryHeap and PriorityQueue insert through the heap's own insertion path (Push re-heapifies) — the defect named in the property; (R22) Peek reads slot 0; Pop returns slot 0 read before Swap(0,n-1); Remove(n-1); bubbleDown and leaves an empty heap alone; Push(v) = Add; bubbleUp and Push(vs...) = Add*; bubbleDownIndex(i) for i from n/2 down to 0; the sift routines swap only on a comparator verdict and follow the element they move; Values() is filled from the heap's own iterator; the queue's heap is built with the queue's comparator; (R20) PriorityQueue delegates every operation to the heap; (R13b) neither package compares elements with Go operators — their default comparator is cmp.Compare, not a hand-written `<`/`>` that calls NaN equal to everything; (R30) the array list that stores the heap never pads or truncates its contents (length algebra of C03); (R41) the geometry of the sift routines round by round: children 2i+1 / 2i+2 each looked at only below the heap's own size, the smaller child chosen, a swap only knowing cmp(slot, child) > 0 and continuing there, a stop only knowing that no child exists or that the slot is in order with its smaller child; sift-up from size-1 through (i-1)/2 with the mirror conditions. Not decided: that these local conditions add up to the heap order for every history (the induction over the tree is not carried out), multiset preservation, level-sorted iterator values. Inherited (substrate): the array list that stores the heap — length algebra and index guards."+notBehaviour,
 			withSubstrates(c, []*RuleResult{
 				prefixFilter(c.rule("R8", ruleR8), "R8", "LOADER: heap / priority-queue FromJSON", 6, "R8:trees/binaryheap", "R8a:trees/binaryheap", "R8b:trees/binaryheap", "R8c:trees/binaryheap", "R8d:trees/binaryheap", "R8e:trees/binaryheap", "R8:queues/priorityqueue", "R8e:queues/priorityqueue"),
-				c.rule("R22", ruleR22), rolesFor(c, "C06"),
+				filter(c.rule("R22", ruleR22), "R22", "HEAP: Push/Pop/Peek use the root slot and hand every change to the sift routines", 6, func(o Obligation) bool { return !strings.HasPrefix(o.Key, "R22s:") }), c.rule("R41", ruleR41), rolesFor(c, "C06"),
 				prefixFilter(c.rule("R13", ruleR13), "R13", "ORDER: heap and priority queue never compare elements with Go operators, only through the comparator", 2, "R13b:trees/binaryheap", "R13b:queues/priorityqueue"),
 				prefixFilter(c.rule("R30", ruleR30), "R30", "LENGTH: the array list that stores the heap", 25, "R30:lists/arraylist"),
 			}, "arraylist")...)
@@ -212,8 +212,9 @@ func init() {
 			}, "rbt")...)
 	}}
 	properties["C11"] = propDef{run: func(c *Ctx) *PropertyRun {
-		return pr("other", "Decided: (R9a) all 42 MarshalJSON/UnmarshalJSON are pure forwarders to ToJSON/FromJSON; (R9b) ToJSON serialises the logical view (Values(), the own iterator, a storage field that Values() copies, or the field FromJSON/Size delegate to) — never physical storage whose meaning needs other fields; (R9c) writer and reader use the same JSON kind and it is the kind the property assigns; (R9d) the slice handed to json.Marshal is never nil (an empty value container is [], not null); (R9e) hand-written objects use string keys; (R9f) the raw input of FromJSON reaches only the JSON decoder; (R8e) a forwarding loader is sound for its type; (R19b-index) the ring's Values() — what its ToJSON marshals — reads the slots (start+i) % capacity. Not decided: equality of the reloaded contents (follows from C01–C06 + R8 only informally); element encodability. Inherited: every reachable state must round-trip, so the structural clauses that keep the containers' states consistent (all rules of C01, C03, C04, C05, C06, C09, C10: size counters, link pairing, table/list and forward/inverse pairing, heap protocol, ring indices, length algebra, walks, splits, rotations, unlinking) are part of this check — a state an operation left inconsistent cannot serialise and reload to an equivalent container."+notBehaviour,
-			inherited(c, []*RuleResult{c.rule("R9", ruleR9), c.rule("R8", ruleR8), ringIndexRule(c)}, "C01", "C03", "C04", "C05", "C06", "C09", "C10")...)
+		return pr("other", "Decided: (R9a) all 42 MarshalJSON/UnmarshalJSON are pure forwarders to ToJSON/FromJSON; (R9b) ToJSON serialises the logical view (Values(), the own iterator, a storage field that Values() copies, or the field FromJSON/Size delegate to) — never physical storage whose meaning needs other fields; (R9c) writer and reader use the same JSON kind and it is the kind the property assigns; (R9d) the slice handed to json.Marshal is never nil (an empty value container is [], not null); (R9e) hand-written objects use string keys; (R9f) the raw input of FromJSON reaches only the JSON decoder; (R8e) a forwarding loader is sound for its type; (R19b-index) the ring's Values() — what its ToJSON marshals — reads the slots (start+i) % capacity; (R22s) the heap's sift routines exchange two elements only on a strict comparator verdict, so re-heapifying the serialized array of a heap — which is what the loader does — moves nothing and the loaded heap is the saved one, also among elements that compare equal. Not decided: equality of the reloaded contents (follows from C01–C06 + R8 only informally); element encodability. Inherited: every reachable state must round-trip, so the structural clauses that keep the containers' states consistent (all rules of C01, C03, C04, C05, C06, C09, C10: size counters, link pairing, table/list and forward/inverse pairing, heap protocol, ring indices, length algebra, walks, splits, rotations, unlinking) are part of this check — a state an operation left inconsistent cannot serialise and reload to an equivalent container."+notBehaviour,
+			inherited(c, []*RuleResult{c.rule("R9", ruleR9), c.rule("R8", ruleR8), ringIndexRule(c),
+				prefixFilter(c.rule("R22", ruleR22), "R22s", "HEAP: re-heapifying the serialized heap reproduces it (sift routines exchange elements only on a strict verdict)", 2, "R22s:")}, "C01", "C03", "C04", "C05", "C06", "C09", "C10")...)
 	}}
 	properties["C12"] = propDef{run: func(c *Ctx) *PropertyRun {
 		return pr("other", "Decided: for all 21 FromJSON — loaders decode into a fresh temporary, never live memory (R8a: atomic on error, replace not merge); every write to the receiver is guarded by err == nil (R8b); the receiver's Clear dominates every insertion (R8c: no prior element survives); elements enter only through the container's own exported insertion methods (R8d: sets deduplicate, trees sort, BidiMaps stay one-to-one, the ring keeps the last capacity-many, the heap re-heapifies — by the guarantees of those methods); forwarding loaders are sound because every insertion method of the type is a pure forwarder to the same field (R8e); (R6) a Go-map field that is assigned to can never become nil (the input null cannot make a later Put panic). and the insertion methods themselves carry their structural clauses here (R22 Push re-heapifies the whole heap, R19b the ring's Enqueue, R16put the BidiMaps' Put, R15a/b the linked hash containers, R24 the hash containers, R30 the array list's Add). Not decided: arbitrary follow-up operation sequences beyond 'inserted through the own insertion method' (then C01/C04 apply)."+notBehaviour,
